@@ -85,7 +85,7 @@ theorem notify_count {c : Cfg} {w : World} (r : Reach c w) {n : Nat} {N : Noti}
       | gone => exact absurd hx hg
     refine ⟨?_, hal⟩
     rw [ht]
-    have : w.lisReg.labels.filter (reaches (setN w n (updateConns w N))) = w.lisReg.labels := by
+    have : w.lisReg.labels.filter (reaches w) = w.lisReg.labels := by
       apply List.filter_eq_self.mpr
       intro l hl
       obtain ⟨L, hL, ha⟩ := hal l hl
@@ -204,6 +204,7 @@ theorem wait_reports_only_what_was_sent {c : Cfg} {w : World} (r : Reach c w) {l
 def Emits (w : World) : Op → Nat → Prop
   | .notifyId _ i, id => id = i
   | .notify n, id => ∃ N, w.nots n = some N ∧ id = N.defId
+  | .notifyOne n _ _ i, id => ∃ N, w.nots n = some N ∧ id = i.getD N.defId
   | .cnot _ _ _, id => w.cfg.created = some id
   | .dnot _, id => w.cfg.dropped = some id
   | .cleanup _, id => w.cfg.dead = some id
@@ -315,6 +316,21 @@ theorem hist_step (w : World) (op : Op) : ∃ e, (step w op).1.hist = w.hist ++ 
         exact ⟨e, h1, fun x hx => h2 x hx⟩
   | wait l => simp only [step]; repeat' split
               all_goals exact ⟨[], by simp, by simp⟩
+  | keys n => simp only [step]; repeat' split
+              all_goals exact ⟨[], by simp, by simp⟩
+  | notifyOne n slot l i =>
+    simp only [step]
+    split
+    · exact ⟨[], by simp, by simp⟩
+    · rename_i N hN
+      split
+      · exact ⟨[], by simp, by simp⟩
+      · rw [notifyOneCore_eq]
+        split
+        · exact ⟨[], by simp, by simp⟩
+        · split
+          · exact ⟨[i.getD N.defId], rfl, fun x hx => ⟨N, hN, by simpa using hx⟩⟩
+          · exact ⟨[], by simp, by simp⟩
   | count k => simp only [step]; repeat' split
                all_goals exact ⟨[], by simp, by simp⟩
   | dnode k => simp only [step]; repeat' split
@@ -454,6 +470,99 @@ theorem refused_creation_emits_nothing {w : World} {n k : Nat} {d : Option Nat} 
   · rw [e]
   · exact absurd hk h
 
+/-! ### the single-listener API (`for_each_listener`, `notify_single_listener…`) -/
+
+theorem mem_keysOf {N : Noti} {i l : Nat} : (i, l) ∈ keysOf N ↔ N.conns[i]? = some (some l) := by
+  simp only [keysOf, List.mem_filterMap]
+  constructor
+  · rintro ⟨⟨c, j⟩, hm, he⟩
+    have hm := List.mem_zipIdx_iff_getElem?.mp hm
+    cases c with
+    | none => simp at he
+    | some a =>
+      simp at he
+      obtain ⟨rfl, rfl⟩ := he
+      exact hm
+  · intro h
+    exact ⟨(some l, i), List.mem_zipIdx_iff_getElem?.mpr h, rfl⟩
+
+/-- `for_each_listener` hands out one key per connection of the refreshed notifier; every listener that exists then gets a key,
+and a key always names the listener that holds the key's registry slot at that moment. -/
+theorem keys_cover_the_attached {c : Cfg} {w : World} (r : Reach c w) {n : Nat} {N : Noti}
+    (hN : w.nots n = some N) (hst : N.st = .alive) :
+    (step w (.keys n)).2 = .keys (keysOf (updateConns w N)) ∧
+    (∀ l L, w.liss l = some L → L.st = .alive → (L.slot, l) ∈ keysOf (updateConns w N)) ∧
+    (∀ i l, (i, l) ∈ keysOf (updateConns w N) → w.lisReg.slots[i]? = some (some l)) := by
+  obtain ⟨inv, _⟩ := r.inv
+  have s := updateConns_synced w N (inv.sync n N hN hst).2
+  refine ⟨by simp [step, hN, hst], ?_, ?_⟩
+  · intro l L hL hLst
+    have hown : lisOwn w l = some L.slot := by simp [lisOwn, hL, hLst]
+    exact mem_keysOf.mpr (s.all L.slot l (inv.lis.owner l L.slot hown) ⟨L, hL, hLst⟩)
+  · intro i l h
+    exact s.only i l (mem_keysOf.mp h)
+
+theorem step_notifyOne_alive {w : World} {n : Nat} {N : Noti} (hN : w.nots n = some N) (hst : N.st = .alive) (slot l : Nat) (id : Option Nat) :
+    step w (.notifyOne n slot l id) =
+      ((notifyOneCore w n N slot l (id.getD N.defId)).1, outOfUnit (notifyOneCore w n N slot l (id.getD N.defId)).2) := by
+  simp [step, hN, hst]
+
+/-- A key is valid iff the registry slot it names holds that very listener (for a listener that exists). -/
+theorem key_valid_iff_slot_holds_listener {c : Cfg} {w : World} (r : Reach c w) {n : Nat} {N : Noti}
+    (hN : w.nots n = some N) (hst : N.st = .alive) {slot l : Nat} {L : Lis} (hL : w.liss l = some L) (hLst : L.st = .alive) :
+    (updateConns w N).conns[slot]? = some (some l) ↔ w.lisReg.slots[slot]? = some (some l) := by
+  obtain ⟨inv, _⟩ := r.inv
+  have s := updateConns_synced w N (inv.sync n N hN hst).2
+  exact ⟨s.only slot l, fun h => s.all slot l h ⟨L, hL, hLst⟩⟩
+
+/-- The single-listener notification with a valid key (one that `for_each_listener` would hand out now) reaches exactly the keyed
+listener: it gets the id added, no other listener changes in any way; the call reports `ok` (or `MissedDeadline`, after the
+delivery). -/
+theorem notify_single_reaches_exactly_the_keyed_listener {c : Cfg} {w : World} (r : Reach c w) {n : Nat} {N : Noti}
+    (hN : w.nots n = some N) (hst : N.st = .alive) {slot l id : Nat} (hid : id ≤ c.idMax)
+    (hkey : (slot, l) ∈ keysOf (updateConns w N)) :
+    (step w (.notifyOne n slot l (some id))).2 = (if c.deadline = 2 then .err .missedDeadline else .ok) ∧
+    ∀ a, (step w (.notifyOne n slot l (some id))).1.liss a =
+      match w.liss a with
+      | some L => if a = l ∧ L.st = .alive then some { L with pending := insertId id L.pending } else some L
+      | none => none := by
+  obtain ⟨_, hc⟩ := r.inv
+  subst hc
+  have hk := mem_keysOf.mp hkey
+  have h1 : ¬ w.cfg.idMax < id := by omega
+  rw [step_notifyOne_alive hN hst]
+  refine ⟨?_, fun a => ?_⟩
+  · simp only [Option.getD_some, notifyOneCore_eq, h1, hk, if_false, if_true]
+    by_cases hd : w.cfg.deadline = 2 <;> simp [hd, outOfUnit]
+  · rw [notifyOneCore_liss]
+    simp only [Option.getD_some, h1, hk, false_or, ne_eq, not_true_eq_false, if_false]
+    cases w.liss a <;> rfl
+
+/-- A stale key — the slot it names does not hold its listener any more: the listener was dropped, whether or not ANOTHER
+listener has taken the slot since — is refused with `InvalidListenerKey` and delivers nothing: no listener, not the ghost
+history changes; in particular the listener that re-used the slot gets no phantom event. -/
+theorem stale_key_is_refused_and_delivers_nothing {c : Cfg} {w : World} (r : Reach c w) {n : Nat} {N : Noti}
+    (hN : w.nots n = some N) (hst : N.st = .alive) {slot l id : Nat} (hid : id ≤ c.idMax)
+    (hstale : w.lisReg.slots[slot]? ≠ some (some l)) :
+    (step w (.notifyOne n slot l (some id))).2 = .err .invalidKey ∧
+    (step w (.notifyOne n slot l (some id))).1.liss = w.liss ∧
+    (step w (.notifyOne n slot l (some id))).1.hist = w.hist := by
+  obtain ⟨inv, hc⟩ := r.inv
+  have s := updateConns_synced w N (inv.sync n N hN hst).2
+  have hk : ¬ (updateConns w N).conns[slot]? = some (some l) := fun h => hstale (s.only slot l h)
+  have h1 : ¬ w.cfg.idMax < id := by rw [hc]; omega
+  rw [step_notifyOne_alive hN hst]
+  simp only [Option.getD_some, notifyOneCore_eq, h1, hk, if_false]
+  exact ⟨rfl, rfl, rfl⟩
+
+/-- the key of a listener that was dropped is stale for ever, whoever holds its slot now -/
+theorem key_of_dropped_listener_is_stale {c : Cfg} {w : World} (r : Reach c w) {slot l : Nat} {L : Lis}
+    (hL : w.liss l = some L) (hg : L.st = .gone) : w.lisReg.slots[slot]? ≠ some (some l) := by
+  obtain ⟨inv, _⟩ := r.inv
+  intro h
+  have := inv.lis.slot slot l h
+  simp [lisOwn, hL, hg] at this
+
 /-! ### non-vacuity -/
 
 def cfgA : Cfg := { maxNot := 2, maxLis := 2, maxNodes := 2, idMax := 5, created := some 1, dropped := some 2, dead := some 3 }
@@ -478,6 +587,20 @@ example : (step (run (World.init cfgA) [.open 1, .clis 0 0, .cnot 0 (some 4) 1, 
 example : (step (run (World.init { cfgA with deadline := 2 }) [.clis 0 0, .cnot 0 (some 4) 0]) (.notify 0)).2 = .err .missedDeadline := by
   decide
 example : (step (run (World.init { cfgA with deadline := 2 }) [.clis 0 0, .cnot 0 (some 4) 0, .notify 0]) (.wait 0)).2 = .ids [1, 4] := by
+  decide
+
+-- single-listener API with slot re-use: listener 0 gets a key (slot 0), is dropped, listener 1 takes slot 0; the old key is refused
+-- and listener 1 reports nothing; a fresh key reaches listener 1 only
+example : (step (run (World.init cfgA) [.cnot 0 (some 4) 0, .clis 0 0, .keys 0]) (.notifyOne 0 0 0 (some 5))).2 = .ok := by decide
+example : (step (run (World.init cfgA) [.cnot 0 (some 4) 0, .clis 0 0, .keys 0, .dlis 0, .clis 1 0]) (.notifyOne 0 0 0 (some 5))).2 = .err .invalidKey := by
+  decide
+example : (step (run (World.init cfgA) [.cnot 0 (some 4) 0, .clis 0 0, .keys 0, .dlis 0, .clis 1 0, .notifyOne 0 0 0 (some 5)]) (.wait 1)).2 = .ids [] := by
+  decide
+example : (step (run (World.init cfgA) [.cnot 0 (some 4) 0, .clis 0 0, .dlis 0, .clis 1 0, .clis 2 0]) (.keys 0)).2 = .keys [(0, 1), (1, 2)] := by
+  decide
+example : (step (run (World.init cfgA) [.cnot 0 (some 4) 0, .clis 0 0, .dlis 0, .clis 1 0, .clis 2 0, .notifyOne 0 0 1 (some 5)]) (.wait 1)).2 = .ids [5] := by
+  decide
+example : (step (run (World.init cfgA) [.cnot 0 (some 4) 0, .clis 0 0, .dlis 0, .clis 1 0, .clis 2 0, .notifyOne 0 0 1 (some 5)]) (.wait 2)).2 = .ids [] := by
   decide
 
 end Iox2.EventPorts
